@@ -1,5 +1,6 @@
 from collections import OrderedDict
 from collections.abc import Callable
+from threading import RLock
 from typing import Any, TypeVar, cast
 
 from reactivex import GroupedObservable, Observable, abc
@@ -9,6 +10,7 @@ from reactivex.disposable import (
     RefCountDisposable,
     SingleAssignmentDisposable,
 )
+from reactivex.internal import synchronized
 from reactivex.internal.basic import identity
 from reactivex.subject import Subject
 from reactivex.typing import Mapper
@@ -76,7 +78,11 @@ def group_by_until_(
             writers: OrderedDict[_TKey, Subject[_TValue]] = OrderedDict()
             group_disposable = CompositeDisposable()
             ref_count_disposable = RefCountDisposable(group_disposable)
+            # Duration observables usually fire on another thread than the source:
+            # looking up a group and delivering to it must not interleave with its expiry
+            lock = RLock()
 
+            @synchronized(lock)
             def on_next(x: _T) -> None:
                 writer = None
                 key = None
@@ -127,6 +133,7 @@ def group_by_until_(
                     sad = SingleAssignmentDisposable()
                     group_disposable.add(sad)
 
+                    @synchronized(lock)
                     def expire() -> None:
                         if writers[key]:
                             del writers[key]
@@ -137,6 +144,7 @@ def group_by_until_(
                     def on_next(value: Any) -> None:
                         pass
 
+                    @synchronized(lock)
                     def on_error(exn: Exception) -> None:
                         for wrt in writers.values():
                             wrt.on_error(exn)
@@ -160,12 +168,14 @@ def group_by_until_(
 
                 writer.on_next(element)
 
+            @synchronized(lock)
             def on_error(ex: Exception) -> None:
                 for wrt in writers.values():
                     wrt.on_error(ex)
 
                 observer.on_error(ex)
 
+            @synchronized(lock)
             def on_completed() -> None:
                 for wrt in writers.values():
                     wrt.on_completed()
